@@ -237,23 +237,6 @@ Proof.
 Qed.
 
 (* ---- node management ---- *)
-Lemma lfeats_remove_entities l : forall s p, lfeats (fst (remove_entities s p l)) = lfeats s.
-Proof.
-  induction l as [|de r IH]; intros s p; [reflexivity|]. cbn [remove_entities].
-  destruct (find_peer s p) as [pe|]; [|reflexivity].
-  destruct (negb _); [reflexivity|].
-  destruct (find_rent pe (de_addr de)) as [en|]; [|apply IH]. rewrite IH. reflexivity.
-Qed.
-
-Lemma lfeats_notify_entries m l : forall s p, lfeats (fst (notify_entries s p m l)) = lfeats s.
-Proof.
-  induction l as [|de r IH]; intros s p; [reflexivity|]. cbn [notify_entries].
-  destruct (de_state de) as [[|]|]; [| |reflexivity].
-  - destruct (find_peer s p) as [pe|]; [|reflexivity]. destruct (negb _); [reflexivity|]. rewrite IH. reflexivity.
-  - pose proof (lfeats_remove_entities (dm_ents m) s p) as H.
-    destruct (remove_entities s p (dm_ents m)) as [s1 err]. cbn [fst] in H. destruct err; [exact H|]. rewrite IH. exact H.
-Qed.
-
 Lemma reg_result_lfeats (r : st * bool) s :
   lfeats (fst r) = lfeats s -> lfeats (fst (fst (reg_result r))) = lfeats s /\ inv (snd (fst (reg_result r))) = [].
 Proof. destruct r as [s1 e]. cbn. auto. Qed.
@@ -263,7 +246,8 @@ Lemma nm_dispatch_quiet s pe lf d c pl :
 Proof.
   unfold nm_dispatch, err_general.
   destruct pl; destruct c; try (split; reflexivity); apply reg_result_lfeats.
-  - unfold discovery_notify. destruct (dm_ents m); [reflexivity|]. apply lfeats_notify_entries.
+  - apply lfeats_discovery_reply.
+  - apply lfeats_discovery_notify.
   - unfold add_subscription. repeat match goal with |- context [match ?x with _ => _ end] => destruct x end; reflexivity.
   - unfold remove_subscription. repeat match goal with |- context [match ?x with _ => _ end] => destruct x end; reflexivity.
   - unfold add_binding. repeat match goal with |- context [match ?x with _ => _ end] => destruct x end; reflexivity.
@@ -597,13 +581,13 @@ Lemma duplicate_refused s e f c cb lf :
   let s1 := fst (step s (AddRespCb e f c cb)) in
   step s1 (AddRespCb e f c cb) = (s1, [ORetB false]).
 Proof.
-  intros Hf. cbn zeta. unfold step at 2. cbn [step_v]. rewrite Hf.
+  intros Hf. cbn zeta. unfold step. cbn [step_v]. rewrite Hf.
   set (cbs := match assoc_N c (lf_rcb lf) with Some l => l | None => [] end).
   destruct (memN cb cbs) eqn:Hdup; cbn [fst].
-  - unfold step. cbn [step_v]. rewrite Hf. fold cbs. rewrite Hdup. reflexivity.
-  - unfold step. cbn [step_v]. rewrite find_lfeat_find. unfold upd_lfeat, set_lfeats. cbn [lfeats].
+  - rewrite Hf. fold cbs. rewrite Hdup. reflexivity.
+  - rewrite find_lfeat_find in *. unfold upd_lfeat, set_lfeats. cbn [lfeats].
     rewrite find_upd_first_same by (intros x; split; reflexivity).
-    rewrite find_lfeat_find in Hf. rewrite Hf. cbn [option_map set_rcb lf_rcb assoc_N]. rewrite N.eqb_refl.
+    rewrite Hf. cbn [option_map set_rcb lf_rcb assoc_N]. rewrite N.eqb_refl.
     rewrite memN_app_last. reflexivity.
 Qed.
 
